@@ -9,12 +9,18 @@ column-normalised; weighted mean of |amplitude|).  Consequences are checked dire
 constant spectrum, finiteness) or as relations between executions (scaling, phase-invariance,
 matrix form = direct form, object path = array path, deprecated argument order).  Bandwidth limits
 are checked on the real objects (record synthesised so that its FAS is the amplitude word).
+Containers: integer-typed frequency / amplitude / target arrays (array level and through the object), the same
+argument arrays for a sequence of calls (unchanged afterwards); ownership: the caller overwrites, in place, the
+target array it gave to the constructor / a setter after the smoothed spectrum was read - the object must keep
+reporting the same targets, with the Konno-Ohmachi means at the targets it reports.
 """
+import math
+
 import numpy as np
 
 from ..target import eqsig, frequency, im
 from ..result import Res
-from ..compare import words
+from ..compare import words, snapshot
 from ..refs import freq_ref as fr
 
 DT = 0.01
@@ -26,6 +32,17 @@ RATIOS = (None, 0.5, 0.9)       # None: the default 0.707
 SIG_RATIOS = (None, 2)          # get_sig_freq_range: None = default 15
 PHASES = (1, -1, 1j, -1j, (0.6 + 0.8j))
 FLOOR = 1e-6                    # amplitudes are O(1): tolerance scale never below this (all-zero spectra)
+# containers: (label, Fourier grid, dtype of the frequency array, dtype of the amplitude array, target set, dtype of the targets).
+# Grid 'bins' = f_k = k/(N dt) as everywhere else; 'whole-hz' = f_k = k Hz (the grid of a record with N dt = 1 s), which an
+# integer-typed array can hold.  Amplitudes over {0,1,3} (and the zero bin 7) are integers anyway.
+CONTAINERS = (('int-amplitudes', 'bins', float, np.int64, 'none', None),
+              ('int-targets-1..8', 'bins', float, float, 'whole-hz-1..8', np.int64),
+              ('int-targets-around-grid', 'bins', float, float, 'whole-hz-around-grid', np.int64),
+              ('int-grid-targets-none', 'whole-hz', np.int64, float, 'none', None),
+              ('all-int', 'whole-hz', np.int64, np.int64, 'whole-hz-1..8', np.int64),
+              ('int-grid-float-targets', 'whole-hz', np.int64, float, 'off-grid', float))
+CONTAINER_ZEROS = ('none', 'a0=7')
+WHOLE_HZ = list(range(1, 9))    # whole-Hz targets 1..8 (what np.arange(1, 9) holds)
 
 
 def build(tier, seed):
@@ -43,22 +60,37 @@ def build(tier, seed):
                 '(one pool case per word) x zero-frequency bin {absent, amplitude 0, amplitude 7} x target sets %s x b in %s '
                 'x entry points {calc_smooth_fa_spectrum, deprecated generate_smooth_fa_spectrum, smoothing matrix + np.dot, '
                 'scaled x2.5 / x-2, complex phases, Signal / AccSignal lazy + gen_smooth_fa_spectrum + generate_ + setters, '
-                'custom-matrix form, calc_bandwidth_freqs / f_min / f_max / get_sig_freq_range}; non-trivial = word not all zero'
+                'custom-matrix form, calc_bandwidth_freqs / f_min / f_max / get_sig_freq_range}; + containers %s x zero bin %s x b '
+                '(direct and matrix form, the same argument arrays for the whole sequence, unchanged afterwards); + on the objects: '
+                'targets given as list / float64 array / strided view / int64 array through the constructor, both setters and '
+                'gen_smooth_fa_spectrum, the caller overwriting its array in place after the smoothed spectrum was read; '
+                'non-trivial = word not all zero'
                 % ([m + 1 for m, a in fam if len(a) == 3], '' if quick else ' and all words over {0,1} for 16 bins',
-                   list(TSETS), list(BANDS)),
+                   list(TSETS), list(BANDS), [c[0] for c in CONTAINERS], list(CONTAINER_ZEROS)),
         'bounds': {'alphabet': [0, 1, 3], 'bins_incl_zero': [m + 1 for m, a in fam], 'dt': DT, 'bands': BANDS,
                    'target_sets': TSETS, 'zero_bin': ZEROS, 'bandwidth_ratios': [0.707, 0.5, 0.9],
-                   'sig_freq_range_ratios': [15, 2]},
+                   'sig_freq_range_ratios': [15, 2],
+                   'containers': [[c[0], c[1], np.dtype(c[2]).name, np.dtype(c[3]).name, c[4], np.dtype(c[5]).name if c[5] else None]
+                                  for c in CONTAINERS],
+                   'container_zero_bin': CONTAINER_ZEROS,
+                   'caller_overwrites_its_target_array_after': ['constructor (every target set)', 'smooth_fa_freqs=',
+                                                                'smooth_fa_frequencies=', 'view of a table']},
         'required_classes': ['target-none', 'target-on-grid', 'target-off-grid-inside', 'target-outside',
                              'target-last-bin-and-1.5x', 'target-unsorted-duplicates', 'with-zero-bin', 'without-zero-bin',
                              'zero-bin-amplitude-exceeds-max', 'coincidence', 'constant-spectrum', 'zero-spectrum',
                              'non-constant-spectrum', 'b=5', 'b=20', 'b=40', 'b=100', 'complex-input', 'matrix-form',
                              'custom-matrix-form', 'object-path', 'object-default-targets', 'deprecated-order',
                              'scaling', 'bandwidth-lo<hi', 'bandwidth-lo==hi', 'bandwidth-interior', 'bandwidth-full-range',
-                             'smoothed-strictly-inside-range'],
+                             'smoothed-strictly-inside-range', 'int-typed-targets', 'int-typed-frequencies',
+                             'int-typed-amplitudes', 'int-typed-targets-on-object', 'caller-overwrites-target-array',
+                             'caller-overwrites-view-base'],
         'assumptions': ['amplitudes outside {0,1,3} (x scale factors, unit phases) and grids above the bound are not examined',
                         'target frequencies are positive and finite (the window is undefined at 0)',
-                        'b only on the menu {5,20,40,100}; frequencies / targets passed as float ndarrays',
+                        'b only on the menu {5,20,40,100}; frequencies / amplitudes / targets passed as float64 or int64 ndarrays '
+                        '(lists are not accepted by the array-level functions; float32 not examined)',
+                        'the object is expected to own its target frequencies for the constructor and the two setters; '
+                        'gen_smooth_fa_spectrum(smooth_fa_freqs=array) is NOT followed by an overwrite of the array (it stores the '
+                        'caller\'s array on the unchanged tree: reported separately)',
                         'bandwidth limits are checked only for ascending target sets and non-zero spectra, ratio in (0,1)',
                         'object path: the record is synthesised with numpy irfft so that its FAS is the word; the reference '
                         'is evaluated on the fa_freqs / fa_spectrum the object reports (the FAS itself is C06)',
@@ -94,6 +126,11 @@ def target_set(name, fpos):
         return [fpos[-1], 1.5 * fpos[-1]]
     if name == 'mixed-unsorted':
         return [fpos[-1], 0.5 * fpos[0], fpos[0], fpos[0]]
+    if name == 'whole-hz-1..8':
+        return list(WHOLE_HZ)
+    if name == 'whole-hz-around-grid':
+        # every whole frequency next to a Fourier frequency (the Fourier frequency itself where it is whole)
+        return sorted(set(v for f in fpos for v in (int(math.floor(f)), int(math.ceil(f))) if v >= 1))
     raise KeyError(name)
 
 
@@ -213,6 +250,38 @@ def bandwidth_checks(r, sub, s, tg, ref, ratio_kw, fn_name):
         r.expect('bandwidth.ordered', dict(sub, fn='f_min/f_max', ratio=ratio), lo <= hi, 'f_min > f_max', observed=(lo, hi))
 
 
+def overwrite(arr):
+    """The caller re-uses the array it had handed over: new positive values written in place."""
+    arr *= 3
+    arr += 1
+
+
+def check_after_overwrite(r, sub, s, tg_before, ref_before, fpos_o, apos_o, band):
+    """The caller has overwritten (in place) the array it had passed as target frequencies AFTER the smoothed spectrum was
+    read.  The object must report the same targets as before, and what it reports must still be the Konno-Ohmachi mean at
+    the targets it reports."""
+    r.cls('caller-overwrites-target-array')
+    r.transitions += 1
+    ok, out = r.call('object', sub, lambda: (np.array(s.smooth_fa_freqs, dtype=float), np.array(s.smooth_fa_frequencies, dtype=float),
+                                             np.array(s.smooth_fa_spectrum)))
+    if not ok:
+        return
+    tg2, tg3, sm2 = out
+    same = tg2.shape == tg_before.shape and np.array_equal(tg2, tg_before) and tg3.shape == tg_before.shape \
+        and np.array_equal(tg3, tg_before)
+    r.expect('targets-owned', sub, same, 'the target frequencies the object reports changed when the caller overwrote the array '
+             'it had passed earlier', observed=tg2, expected=tg_before)
+    try:
+        # ref_before: the reference at the targets reported before; evaluated anew if other targets are reported now
+        ref = ref_before if same else fr.ko_smooth(fr.ko_matrix(fpos_o, [float(v) for v in tg2], band), apos_o)
+    except Exception as e:
+        r.fail('object', sub, 'cannot evaluate the reference on the reported targets: %s' % e, observed=tg2)
+        return
+    r.expect_close('reference', sub, sm2, ref, rtol=1e-10, scale=max(max(apos_o), FLOOR),
+                   what='smoothed spectrum vs Konno-Ohmachi mean at the targets the object reports, after the caller overwrote its '
+                        'own target array')
+
+
 # ------------------------------------------------------------------------------ one word
 def run_case(case):
     r = Res()
@@ -326,6 +395,60 @@ def run_case(case):
                     r.expect_close('modulus', s5, out, direct, rtol=1e-12, scale=float(amax),
                                    what='complex spectrum with the same moduli gives a different result')
 
+    # ---------------- array level: containers.  Integer-typed frequency / amplitude / target arrays (whole-Hz targets as
+    # np.arange(1, 9) holds them, an integer Fourier grid with targets=None, integer amplitudes); the SAME argument arrays serve
+    # the whole sequence of calls (all b, direct and matrix form) and must come back unchanged.
+    for zero in CONTAINER_ZEROS:
+        for label, gkind, fdt, adt, tname, tdt in CONTAINERS:
+            fp = fpos if gkind == 'bins' else [float(k) for k in range(1, m + 1)]
+            f0 = [] if zero == 'none' else [0.0]
+            a0l = [] if zero == 'none' else [7.0]
+            ff = np.array(f0 + fp).astype(fdt)
+            aa = np.array(a0l + apos).astype(adt)
+            tl = target_set(tname, fp)
+            tg_ref = fp if tl is None else tl
+            targets = None if tl is None else np.array(tl).astype(tdt)
+            coincide = any(t in fp for t in tg_ref)
+            if tdt is np.int64 or (tl is None and fdt is np.int64):
+                r.cls('int-typed-targets')
+            if fdt is np.int64:
+                r.cls('int-typed-frequencies')
+            if adt is np.int64:
+                r.cls('int-typed-amplitudes')
+            if coincide:
+                r.cls('coincidence')
+            snaps = [snapshot(v) for v in (ff, aa, targets)]
+            for b in BANDS:
+                r.states += 1
+                W = ref_matrix((m, 'c-' + label), fp, tg_ref, b)
+                ref = fr.ko_smooth(W, apos)
+                sub = {'a': a, 'zero': zero, 'containers': label, 'b': b}
+                s1 = dict(sub, entry='calc_smooth_fa_spectrum')
+                ok, direct = r.call('reference', s1, frequency.calc_smooth_fa_spectrum, ff, aa, targets, band=b)
+                good = ok and check_smoothed(r, s1, direct, ref, apos, tg_ref, fp, coincide)
+                s3 = dict(sub, entry='calc_smoothing_matrix_konno_1998')
+                ok, M = r.call('matrix', s3, frequency.calc_smoothing_matrix_konno_1998, ff, targets, band=b)
+                if ok:
+                    try:
+                        Mg = np.asarray(M, dtype=float)
+                        if Mg.shape != (m, len(tg_ref)):
+                            raise ValueError('shape %s, expected %s' % (Mg.shape, (m, len(tg_ref))))
+                    except Exception as e:
+                        r.fail('matrix', s3, 'malformed smoothing matrix: %s' % e, observed=M)
+                        continue
+                    r.expect_close('matrix.colsum', s3, Mg.sum(axis=0), np.ones(len(tg_ref)), rtol=1e-12,
+                                   what='weights of one target do not sum to one')
+                    r.expect_close('matrix.reference', s3, Mg, np.array(W), rtol=1e-10, scale=1.0,
+                                   what='weights vs normalised [sin(x)/x]^4, x = b log10(f/fc), 1 at f = fc')
+                    if good:
+                        r.transitions += 1
+                        r.expect_close('matrix==direct', s3, np.dot(np.abs(aa[-m:]), Mg), direct, rtol=1e-10,
+                                       scale=max(float(amax), FLOOR), what='np.dot(|amplitudes|, matrix) vs direct form')
+            r.expect('arguments-unchanged', {'a': a, 'zero': zero, 'containers': label},
+                     [snapshot(v) for v in (ff, aa, targets)] == snaps,
+                     'a smoothing function modified one of its argument arrays (frequencies, amplitudes, targets)',
+                     observed=(ff, aa, targets))
+
     # ---------------- object level
     for a0 in (0.0, 7.0):
         X = np.array([a0] + [apos[i] * phases[i] for i in range(m)] + [0.0], dtype=complex) / DT
@@ -339,11 +462,13 @@ def run_case(case):
                 r.states += 1
                 r.cls('object-path')
 
+                tarr = None if tl is None else np.array(tl)    # the caller's own float64 array: kept, overwritten at the end
+
                 def fresh():
                     if tl is None:
                         s_ = cls(x.copy(), DT)
                     else:
-                        s_ = cls(x.copy(), DT, smooth_fa_freqs=np.array(tl))
+                        s_ = cls(x.copy(), DT, smooth_fa_freqs=tarr)
                     if not fr.is_pow2(N):
                         s_.gen_fa_spectrum(n=N)
                     return s_
@@ -440,6 +565,11 @@ def run_case(case):
                 ok, sm = r.call('reference', s4, gen2)
                 if ok:
                     r.expect_close('reference', s4, sm, refb(20), rtol=1e-10, scale=max(max(apos_o), FLOOR))
+                    if tarr is not None:
+                        # the caller re-uses the array it gave to the constructor (the object holds the b=20 spectrum)
+                        overwrite(tarr)
+                        check_after_overwrite(r, dict(sub, b=20, entry='constructor-array-overwritten-by-caller'), s, tg_o,
+                                              refb(20), fpos_o, apos_o, 20)
             # ---- target setters on one object (Signal and AccSignal): the smoothed spectrum follows the targets
             sub = {'a': a, 'a0': a0, 'cls': cname, 'targets': 'setters'}
 
@@ -455,12 +585,27 @@ def run_case(case):
             t_off = target_set('off-grid', fpos)
             t_grid = target_set('grid', fpos)
             t_last = target_set('last-and-1.5x', fpos)
-            steps = [('smooth_fa_freqs=', lambda: setattr(s, 'smooth_fa_freqs', list(t_off))),
-                     ('smooth_fa_frequencies=', lambda: setattr(s, 'smooth_fa_frequencies', np.array(t_grid))),
-                     ('set_smooth_fa_frequecies_by_range', lambda: s.set_smooth_fa_frequecies_by_range((0.5, 20.0), 7)),
+            # containers the caller keeps and, once the smoothed spectrum has been read, overwrites in place (third column):
+            # float64 arrays, a strided view of a float64 table (the table is overwritten), integer-typed whole-Hz arrays
+            arr_grid = np.array(t_grid)
+            arr_off = np.array(t_off)
+            table = np.array([v for t in t_last for v in (t, 3.0 * t)])
+            ints = np.array(WHOLE_HZ, dtype=np.int64)
+            ints2 = np.array(WHOLE_HZ, dtype=np.int64)
+            steps = [('smooth_fa_freqs=', lambda: setattr(s, 'smooth_fa_freqs', list(t_off)), None),
+                     ('smooth_fa_frequencies=', lambda: setattr(s, 'smooth_fa_frequencies', arr_grid), arr_grid),
+                     ('smooth_fa_freqs=float64-array', lambda: setattr(s, 'smooth_fa_freqs', arr_off), arr_off),
+                     ('smooth_fa_frequencies=view-of-table', lambda: setattr(s, 'smooth_fa_frequencies', table[::2]), table),
+                     ('smooth_fa_freqs=int64-array', lambda: setattr(s, 'smooth_fa_freqs', ints), ints),
+                     ('set_smooth_fa_frequecies_by_range', lambda: s.set_smooth_fa_frequecies_by_range((0.5, 20.0), 7), None),
+                     # RESTRICTED (no overwrite afterwards): on the unchanged tree gen_smooth_fa_spectrum(smooth_fa_freqs=arr) stores the
+                     # caller's array itself, so after `arr *= 2` the object reports the new targets next to the old amplitudes
+                     # (reported to the maintainer of this check as a finding; lift the restriction when it is repaired)
                      ('gen_smooth_fa_spectrum(smooth_fa_freqs=)', lambda: s.gen_smooth_fa_spectrum(
-                         smooth_fa_freqs=np.array(t_last), band=40))]
-            for sname, op in steps:
+                         smooth_fa_freqs=np.array(t_last), band=40), None),
+                     ('gen_smooth_fa_spectrum(smooth_fa_freqs=int64-array)', lambda: s.gen_smooth_fa_spectrum(
+                         smooth_fa_freqs=ints2, band=40), None)]
+            for sname, op, kept in steps:
                 s5 = dict(sub, entry=sname)
                 r.states += 1
 
@@ -483,6 +628,14 @@ def run_case(case):
                     continue
                 r.expect_close('reference', s5, sm, ref, rtol=1e-10, scale=float(max(np.max(np.abs(fa_o[1:])), 1e-300)),
                                what='smoothed spectrum after changing the target frequencies')
+                if 'int64' in sname:
+                    r.cls('int-typed-targets-on-object')
+                if kept is not None:
+                    overwrite(kept)
+                    if kept is table:
+                        r.cls('caller-overwrites-view-base')
+                    check_after_overwrite(r, dict(s5, then='caller-overwrites-its-array'), s, tg_o, ref,
+                                          [float(v) for v in ff_o[1:]], [float(abs(v)) for v in fa_o[1:]], 40)
     return r
 
 
